@@ -202,7 +202,8 @@ func genReq(r *vh.Rng, s jobctl.Spec, verHint int64, faults bool) jobctl.Req {
 			case 0:
 				q.Faults = append(q.Faults, jobctl.Fault{Kind: 1, A: t, B: i})
 			case 1:
-				q.Faults = append(q.Faults, jobctl.Fault{Kind: 2, A: t, B: i})
+				// the pod DELETE refused, with an error class (2 = the generic one)
+				q.Faults = append(q.Faults, jobctl.Fault{Kind: int64(vh.Pick(r, []int{2, 2, 21, 22, 23, 24, 25})), A: t, B: i})
 			case 2:
 				q.Faults = append(q.Faults, jobctl.Fault{Kind: 3, A: t, B: i})
 			default:
@@ -618,6 +619,60 @@ func genAbortingResume(r *vh.Rng) jobctl.History {
 	return h
 }
 
+// ---------- error classes of a refused pod DELETE ----------
+// A job with live pods in a phase whose reconciliation kills pods (a kill command, a Restarting / Aborting /
+// Completing / Terminating / finished job being reconciled, a scale-down sync); the DELETE of one pod is
+// answered with Timeout / ServerTimeout / TooManyRequests / Conflict / InternalError and is NOT applied
+// (sometimes the server applies it after all: a pod-deleting event follows); then the views catch up and
+// the job is reconciled again.
+func genDeleteClasses(r *vh.Rng) jobctl.History {
+	var s jobctl.Spec
+	nt := r.Range(1, 2)
+	for i := 0; i < nt; i++ {
+		t := jobctl.Task{Name: int64(i + 1), Replicas: int64(r.Range(1, 3)), Cpu: 100}
+		s.Tasks = append(s.Tasks, t)
+		s.Min += t.Replicas
+	}
+	s.MaxRetry = 3
+	h := jobctl.History{Spec: s, Status: jobctl.Status{Phase: int64(vh.Pick(r, []int{4, 4, 4, 1, 5, 2, 6, 8, 7, 10})), Retry: int64(r.Intn(2)), Min: s.Min, TscNil: true}}
+	for _, t := range s.Tasks {
+		for i := int64(0); i < t.Replicas+int64(r.Intn(2)); i++ { // sometimes a surplus pod
+			ph := int64(1)
+			if r.Chance(1, 5) {
+				ph = int64(vh.Pick(r, []int{0, 2, 3}))
+			}
+			h.Pods = append(h.Pods, jobctl.Pod{Task: t.Name, Idx: i, Phase: ph})
+			h.Status.C[ph]++
+		}
+	}
+	h.Pg = i64p(3)
+	victim := vh.Pick(r, h.Pods)
+	victim = h.Pods[len(h.Pods)-1-r.Intn(1)] // mostly the last pod (the surplus one when there is one)
+	if r.Chance(1, 2) {
+		victim = vh.Pick(r, h.Pods)
+	}
+	q := jobctl.Req{Event: 8, UidMatch: 1, Version: h.Status.Version}
+	if h.Status.Phase == 4 || h.Status.Phase == 1 {
+		switch r.Intn(3) {
+		case 0:
+			q = jobctl.Req{Event: 9, Action: i64p(int64(vh.Pick(r, []int{1, 2, 6, 7}))), UidMatch: 1, Version: h.Status.Version}
+		case 1:
+			q = jobctl.Req{Event: 9, Action: i64p(4), UidMatch: 1, Version: h.Status.Version, Task: i64p(victim.Task), Pod: &[2]int64{victim.Task, victim.Idx}}
+		}
+	}
+	q.Faults = []jobctl.Fault{{Kind: int64(vh.Pick(r, []int{21, 21, 22, 22, 23, 24, 25})), A: victim.Task, B: victim.Idx}}
+	h.Ops = append(h.Ops, jobctl.Op{Code: 1, Req: q})
+	if r.Chance(1, 3) {
+		h.Ops = append(h.Ops, jobctl.Op{Code: 3, T: victim.Task, I: victim.Idx}) // applied on the server side after all
+	}
+	h.Ops = append(h.Ops, jobctl.Op{Code: 7}, jobctl.Op{Code: 8}, jobctl.Op{Code: 6})
+	q2 := q
+	q2.Faults = nil
+	h.Ops = append(h.Ops, jobctl.Op{Code: 1, Req: q2}, jobctl.Op{Code: 7}, jobctl.Op{Code: 8},
+		jobctl.Op{Code: 1, Req: jobctl.Req{Event: 8, UidMatch: 1, Version: h.Status.Version + 1}})
+	return h
+}
+
 func descHistory(h jobctl.History) any {
 	return map[string]any{"tasks": len(h.Spec.Tasks), "minAvailable": h.Spec.Min, "maxRetry": h.Spec.MaxRetry,
 		"initial_phase": h.Status.Phase, "initial_pods": len(h.Pods), "ops": len(h.Ops), "maxRequeueNum": h.MaxRequeueP1 - 1}
@@ -670,5 +725,13 @@ func gen(rng *vh.Rng, n int, emit func(id string, sel int, in []int64, kind stri
 		w := &jobctl.W{}
 		w.History(h)
 		emit(fmt.Sprintf("hist-abortresume-%d", i), 1, w.T, "history/aborting-resume", true, descHistory(h))
+	}
+	// error classes of a refused pod DELETE
+	for i := 0; i < n/4+1; i++ {
+		r := rng.Fork()
+		h := genDeleteClasses(r)
+		w := &jobctl.W{}
+		w.History(h)
+		emit(fmt.Sprintf("hist-delclass-%d", i), 1, w.T, "history/delete-classes", true, descHistory(h))
 	}
 }
